@@ -36,6 +36,8 @@ AXES = {
     'tiny3': np.array([-1.0, 0.5, 2.0]),
     'tiny2': np.array([0.0, 1.5]),
     'long7': np.array([-3.0, -2.0, -0.5, 0.0, 1.0, 2.5, 4.0]),
+    # an axis given with an INTEGER dtype (legal: np.asarray keeps it everywhere)
+    'int5': np.array([-3, -1, 0, 2, 5]),
 }
 # stencil size of each method (polynomial degree + 1; akima uses 4): shorter axes are refused at construction
 MINPTS = {'slinear': 2, 'lagrange2': 3, 'lagrange3': 4, 'cubic': 4, 'akima': 4}
@@ -101,7 +103,7 @@ def mk(method, axes, vals, extrapolate=True):
 def run_c15(T, big):
     from openmdao.components.interp_util.outofbounds_error import OutOfBoundsError
     # (the tiny axes are shorter than some stencils / force reduced spline orders: they are used by the mixed-order section only)
-    axis_names = [n for n in AXES if not n.startswith('tiny')] if big else ['neg', 'to0', 'mixed', 'short']
+    axis_names = [n for n in AXES if not n.startswith('tiny')] if big else ['neg', 'to0', 'mixed', 'short', 'int5']
     methods = GENERAL + SCIPY
     for dim in (1, 2, 3):
         combos = list(itertools.product(axis_names, repeat=dim))
@@ -149,7 +151,7 @@ def run_c15(T, big):
                     bad = None
                     for k in range(dim):
                         a = axes[k]
-                        base = np.array([ax[len(ax) // 2] for ax in axes])
+                        base = np.array([ax[len(ax) // 2] for ax in axes], dtype=float)     # (float: a[0] - 1e-3 must not be truncated on integer axes)
                         for x, outside in ((a[0], False), (a[-1], False), (a[0] - 1e-3, True), (a[-1] + 1e-3, True), (a[0] - 2.0, True), (a[1], False)):
                             p = base.copy()
                             p[k] = x
@@ -249,12 +251,12 @@ def cs_or_fd(method, axes, vals, pt, k):
 
 def run_c16(T, big):
     import openmdao.api as om
-    axis_names = ['neg', 'mixed', 'short', 'from0'] if big else ['neg', 'mixed', 'short']
+    axis_names = ['neg', 'mixed', 'short', 'from0', 'int5'] if big else ['neg', 'mixed', 'short', 'int5']
     for dim in (1, 2, 3):
         if dim == 1:
             combos = [(n,) for n in axis_names]
         elif dim == 2:
-            combos = [('neg', 'mixed'), ('short', 'from0'), ('mixed', 'short')] if big else [('neg', 'mixed'), ('short', 'from0')]
+            combos = [('neg', 'mixed'), ('short', 'from0'), ('mixed', 'short'), ('int5', 'mixed')] if big else [('neg', 'mixed'), ('short', 'from0'), ('mixed', 'int5')]
         else:
             combos = [('short', 'neg', 'short')]
         mixed_order = [('tiny3', 'long7'), ('long7', 'tiny3'), ('tiny2', 'long7'), ('short', 'long7')] if dim == 2 else ([('tiny2', 'long7', 'tiny3')] if dim == 3 else [])
@@ -405,7 +407,7 @@ def run_c16(T, big):
                 T.raised.append(dict(desc, where='spline history', error='%s: %s' % (type(e).__name__, str(e)[:120])))
     # ---- spline mode (SplineComp / InterpND.evaluate_spline): value linear in control points -----
     from openmdao.components.interp_util.interp import InterpND
-    for name in ('mixed', 'neg', 'from0'):
+    for name in ('mixed', 'neg', 'from0', 'int5'):
         xcp = AXES[name]
         for method in ['slinear', 'lagrange2', 'lagrange3', 'cubic', 'akima', 'scipy_slinear', 'scipy_cubic', 'bsplines']:
             for xin in (np.array([xcp[0], 0.3 * xcp[0] + 0.7 * xcp[1], xcp[2] + 0.1, xcp[-1]]),
